@@ -39,21 +39,22 @@ def make_globals():
         "s1": "one", "s2": "two<&>\"'", "markup": "<b class=\"x\">bold</b> &amp; more", "t": 1, "f": 0, "num": 42, "zero": 0, "empty": "",
         "seq0": [], "seq1": ["only"], "seq2": ["a", "b"], "seq3": ["x", "y<", "z"], "m": {"k": "vk", "n": {"d": "deep"}, "l": ["l0", "l1"]},
         "fn": fn, "obj": Obj(), "tup": ("t0", "t1"),
+        "recs": [{"label": "A", "flag": 1}, {"flag": 0}, {"label": "C<", "flag": 1}, {"flag": 0, "label": ""}],
     }
 
 
 DEFINE = [None, "v1 string:one", "global g1 s1", "v1 missing | nothing; v2 s1", "local v1 m/k; global g2 string:a;;b"]
-CONDITION = [None, "t", "f", "missing", "not:f", "exists:missing", "seq0", "exists:s1", "not:missing", "nocall:fn", "empty", "zero", "default", "nothing", "seq1"]
-REPEAT = [None, "it seq2", "it seq0", "it missing", "it seq1", "it m/l", "it tup", "it nothing", "it default", "it s1"]
+CONDITION = [None, "t", "f", "missing", "not:f", "exists:missing", "seq0", "missing | missing2", "nocall:missing | missing2", "exists:s1", "not:missing", "nocall:fn", "empty", "zero", "default", "nothing", "seq1"]
+REPEAT = [None, "it seq2", "it recs", "it seq0", "it missing", "it seq1", "it m/l", "it tup", "it nothing", "it default", "it s1"]
 CONTENT = [
     None, ("c", "s1"), ("c", "structure markup"), ("c", "text s2"), ("c", "nothing"), ("c", "default"), ("c", "missing | s1"), ("c", "string:a ${s1} $s1 $$ ${missing}x"),
-    ("c", "num"), ("c", "fn"), ("c", "nocall:s1"), ("c", "m/n/d"), ("c", "seq2/1"), ("c", "attrs/title"), ("c", "obj/a"), ("c", "obj/meth"), ("c", "s2"), ("c", "missing"),
+    ("c", "missing | missing2"), ("c", "nocall:missing | missing2"), ("c", "num"), ("c", "fn"), ("c", "nocall:s1"), ("c", "m/n/d"), ("c", "seq2/1"), ("c", "attrs/title"), ("c", "obj/a"), ("c", "obj/meth"), ("c", "s2"), ("c", "missing"),
     ("c", "structure s2"), ("c", "path:m/k"), ("c", "exists:m/zz"), ("c", "not:s1"), ("c", "string:"), ("c", "m/l/1"), ("c", "zero"), ("c", "empty"),
     ("r", "s1"), ("r", "structure markup"), ("r", "nothing"), ("r", "default"), ("r", "s2"), ("r", "missing | nothing"), ("r", "text s1"),
 ]
-REPEAT_CONTENT = [("c", "it"), ("c", "repeat/it/number"), ("c", "string:${repeat/it/index}-${repeat/it/letter}-${repeat/it/Roman}-${repeat/it/even}${repeat/it/odd}${repeat/it/start}${repeat/it/end}-${repeat/it/length}"), ("r", "it")]
-ATTRIBUTES = [None, "title s1", "title nothing", "class default; id string:x;;y", "title missing", "title s2; lang string:en", "title repeat/it/number | string:none", "href markup"]
-OMIT = [None, "", "t", "f", "missing", "nothing", "default"]
+REPEAT_CONTENT = [("c", "it/label | default"), ("r", "it/label | default"), ("c", "it/label | nothing"), ("c", "structure it/label | default"), ("c", "it"), ("c", "repeat/it/number"), ("c", "string:${repeat/it/index}-${repeat/it/letter}-${repeat/it/Roman}-${repeat/it/even}${repeat/it/odd}${repeat/it/start}${repeat/it/end}-${repeat/it/length}"), ("r", "it")]
+ATTRIBUTES = [None, "title it/label | default; class it/flag | nothing", "title s1", "title nothing", "class default; id string:x;;y", "title missing", "title s2; lang string:en", "title repeat/it/number | string:none", "href markup"]
+OMIT = [None, "", "t", "f", "missing", "nothing", "default", "it/flag | f", "missing | missing2"]
 
 
 def element(define=None, condition=None, repeat=None, content=None, attributes=None, omit=None, tag="div", body="x<i>inner</i>y", static='title="orig" class="k"'):
@@ -76,11 +77,11 @@ def element(define=None, condition=None, repeat=None, content=None, attributes=N
 
 def single_templates(tier):
     out = []
-    for d, c, r in itertools.product(DEFINE, CONDITION if tier == "thorough" else CONDITION[:9], REPEAT if tier == "thorough" else REPEAT[:6]):
+    for d, c, r in itertools.product(DEFINE, CONDITION if tier == "thorough" else CONDITION[:11], REPEAT if tier == "thorough" else REPEAT[:7]):
         contents = CONTENT + (REPEAT_CONTENT if r else [])
         for ct in contents:
             for at, om in itertools.product(ATTRIBUTES, OMIT):
-                if tier == "quick":
+                if tier == "quick" and not (r == "it recs" and d is None and c is None):
                     # full cross only on the axes that interact; elsewhere vary one axis at a time
                     simple = sum(x is not None for x in (d, c, r, at, om))
                     if simple > 3 and not (ct is None or ct[1] in ("s1", "nothing", "default", "it", "structure markup")):
@@ -119,6 +120,9 @@ def metal_templates():
         '<p metal:use-macro="missing">kept when the macro is missing? no: nothing</p>',
         '<p metal:use-macro="default">kept: default</p>',
         '<p metal:use-macro="macros/box"><b metal:fill-slot="nosuch">ignored</b></p>',
+        # a use-macro nested in another use-macro's slot content, each filling its own slots
+        '<p metal:use-macro="macros/box"><div metal:fill-slot="body">outer body <p metal:use-macro="macros/box"><b metal:fill-slot="body">inner body</b><u metal:fill-slot="foot">inner foot</u></p></div><s metal:fill-slot="foot">outer foot</s></p>',
+        '<p metal:use-macro="macros/box"><div metal:fill-slot="foot"><p metal:use-macro="macros/box"><b metal:fill-slot="foot">inner foot only</b></p></div></p>',
     ]
     for u in uses:
         out.append("<html><body>" + macro_plain + "<hr>" + u + "<hr>" + '<p metal:use-macro="macros/box"><b metal:fill-slot="foot">second use</b></p>' + "</body></html>")
